@@ -105,6 +105,26 @@ func (m *machine) check() {
 	if err != nil {
 		m.failf("Iterate(all node types): %v", err)
 	}
+	// the other iteration entry point, started at the root, and the typed lookup agree with the model too
+	if root := m.mpt.GetRoot(); len(root) > 0 {
+		from := map[string][]byte{}
+		err = m.mpt.IterateFrom(context.Background(), root, func(_ context.Context, path util.Path, _ util.Key, node util.Node) error {
+			if vn, ok := node.(*util.ValueNode); ok {
+				from[string(append([]byte(nil), path...))] = vn.GetValueBytes()
+			}
+			return nil
+		}, util.NodeTypeValueNode)
+		if err != nil || !mptkit.EqualContent(from, m.model) {
+			m.failf("IterateFrom(root) yields %s (%v)", mptkit.Show(from), err)
+		}
+	}
+	if ks := mptkit.SortedKeys(m.model); len(ks) > 0 {
+		p := ks[len(m.hist)%len(ks)]
+		var v util.SecureSerializableValue
+		if err := m.mpt.GetNodeValue(util.Path(p), &v); err != nil || !bytes.Equal(v.Buffer, m.model[p]) {
+			m.failf("GetNodeValue(%q) = %x, %v; want %x", p, v.Buffer, err, m.model[p])
+		}
+	}
 	if len(m.model) == 0 && len(m.mpt.GetRoot()) != 0 {
 		m.failf("empty content but root %x", m.mpt.GetRoot())
 	}
